@@ -726,6 +726,9 @@ carquet_status_t parquet_parse_page_header(
     memset(header, 0, sizeof(*header));
     *bytes_read = 0;
 
+    /* Which type-specific headers (fields 5, 7, 8) were seen: they share storage */
+    unsigned sub_headers = 0;
+
     thrift_decoder_t dec;
     thrift_decoder_init(&dec, data, size);
 
@@ -755,6 +758,7 @@ carquet_status_t parquet_parse_page_header(
                 header->crc = thrift_read_i32(&dec);
                 break;
             case 5: {  /* data_page_header */
+                sub_headers |= 1u;
                 thrift_read_struct_begin(&dec);
                 thrift_type_t ft;
                 int16_t fid;
@@ -790,6 +794,7 @@ carquet_status_t parquet_parse_page_header(
                 break;
             }
             case 7: {  /* dictionary_page_header */
+                sub_headers |= 2u;
                 thrift_read_struct_begin(&dec);
                 thrift_type_t ft;
                 int16_t fid;
@@ -814,6 +819,7 @@ carquet_status_t parquet_parse_page_header(
                 break;
             }
             case 8: {  /* data_page_header_v2 */
+                sub_headers |= 4u;
                 thrift_read_struct_begin(&dec);
                 thrift_type_t ft;
                 int16_t fid;
@@ -867,6 +873,17 @@ carquet_status_t parquet_parse_page_header(
     if (thrift_decoder_has_error(&dec)) {
         CARQUET_SET_ERROR(error, dec.status, "%s", dec.error_message);
         return dec.status;
+    }
+
+    /* The type-specific headers are a union: unless exactly the one that `type`
+     * selects was present, what the selected view shows is another header's bytes
+     * (including statistics pointers), so leave it empty. */
+    unsigned expected = header->type == CARQUET_PAGE_DATA ? 1u
+                      : header->type == CARQUET_PAGE_DICTIONARY ? 2u
+                      : header->type == CARQUET_PAGE_DATA_V2 ? 4u : 0u;
+    if (sub_headers != 0 && sub_headers != expected) {
+        memset(&header->data_page_header_v2, 0, sizeof(header->data_page_header_v2));
+        memset(&header->data_page_header, 0, sizeof(header->data_page_header));
     }
 
     *bytes_read = dec.reader.pos;
